@@ -23,6 +23,7 @@ RULE = ("cases = (kind, subtype, base elements with arbitrary float coordinates,
 ASSUMPTIONS = ["inert rows may be reported by the R-tree as uncovered candidates (consumers re-test)",
                "empty (non-missing) elements: length/area are not compared (only missing promises NaN)"]
 USE_CONTRACTS = True      # in-situ icontract monitors (vmon/contracts.py)
+SPLIT_KINDS = True         # thorough tier: one shard per geometry kind
 DECIDING_COUNTERS = ["pairs_checked"]
 
 
